@@ -161,6 +161,7 @@ Definition step (s : state) (l : label) : option state :=
               else Some (set_mem s m (Mem (Granted id e) (won x) (campaigning x) None None (saw x) (ttl_of x) (has_value x)))
           | None => Some (set_mem s m (Mem (Granted id e) (won x) (campaigning x) None None (saw x) (ttl_of x) (has_value x)))
           end
+      | Closed, _ => Some s   (* the response of a renewal arrives after lease.Close(): it must not touch the zeroed expiry *)
       | _, _ => None
       end
   | LExpire l =>
